@@ -94,6 +94,12 @@ pub fn assemble(src: &str) -> Result<Asm, String> {
     }
 }
 
+/// (position, name) of a recorded forward reference, whatever collection of pairs or map keyed by position holds it
+trait UPair { fn up(self) -> (usize, String); }
+impl<'a> UPair for &'a (usize, String) { fn up(self) -> (usize, String) { self.clone() } }
+impl<'a> UPair for (&'a usize, &'a String) { fn up(self) -> (usize, String) { (*self.0, self.1.clone()) } }
+impl<'a> UPair for (&'a String, &'a usize) { fn up(self) -> (usize, String) { (*self.1, self.0.clone()) } }
+
 pub fn ok_answer(ctx: PreprocessorContext, out: PreprocessorOutput) -> String {
         let c: Vec<String> = out.code.iter().map(|l| enc(l)).collect();
         let d: Vec<String> = out.data.iter().map(|l| enc(l)).collect();
@@ -105,7 +111,7 @@ pub fn ok_answer(ctx: PreprocessorContext, out: PreprocessorOutput) -> String {
         l.sort();
         let mut f: Vec<String> = ctx.fn_map.iter().map(|(k, v)| format!("{}:{}", k, v)).collect();
         f.sort();
-        let mut uu: Vec<(usize, String)> = ctx.undefined_labels.iter().cloned().collect();
+        let mut uu: Vec<(usize, String)> = ctx.undefined_labels.iter().map(|x| x.up()).collect();
         uu.sort();
         let u: Vec<String> = uu.iter().map(|(p, n)| format!("{}:{}", p, n)).collect();
         let sm = ctx.mapper.get_source_map();
